@@ -854,6 +854,16 @@ def atom_key(name, args, keys=None):
     return a
 
 def uf(name, *args):
+    if name == 'clip' and len(args) == 3:
+        # ONE representation for the three spellings clip(x, lo, hi) = minimum(maximum(x, lo), hi) (jnp.clip's definition):
+        # min / max atoms with sorted arguments; a missing bound is the string 'None'
+        v, lo, hi = args
+        r = Rat.lift(v)
+        if not isinstance(lo, str):
+            r = _minmax('max', r, lo)
+        if not isinstance(hi, str):
+            r = _minmax('min', r, hi)
+        return r
     if FIELD['on'] and FIELD.get('eta'):
         dep = [a for a in args if isinstance(a, Rat) and isinstance(a.fv, Germ)]
         if dep:
